@@ -105,6 +105,14 @@ func (s *syncer) AddChunk(chunk *chunk) (bool, error) {
 	if err != nil {
 		return false, err
 	}
+	// The sender may have been rejected between the check above and the
+	// insertion (applyChunks rejects the peer and then discards its chunks).
+	if added && s.snapshots.IsPeerRejected(chunk.Sender) {
+		if err := s.chunks.DiscardSender(chunk.Sender); err != nil {
+			return false, err
+		}
+		return false, nil
+	}
 	if added {
 		s.logger.Debug("Added chunk to queue", "height", chunk.Height, "format", chunk.Format,
 			"chunk", chunk.Index)
